@@ -29,7 +29,7 @@ CHECKS = {
   design="5/C03"),
  "C05": dict(
   technique="TLC trace validation (TraceRef.tla, Inv_Ref / Inv_NoSpuriousRaise) against a TLA+ reference of Python integer semantics (PyRef.tla)",
-  text="Model checking by trace validation: every operator, reflected operator, unary op, check and selection on secret integers/booleans x three operand-kind combinations x the full value window -2^b-1..2^b+1 x bitlengths 2..6 (plus random expression programs, every node judged) is executed on the real code; TLC evaluates the reference value with PyRef and compares, and checks that calls inside the formalised documented domain do not raise.",
+  text="Model checking by trace validation: every operator, reflected operator, unary op, check and selection on secret integers/booleans x three operand-kind combinations x the full value window -2^b-1..2^b+1 x bitlengths 2..6 (plus secret booleans next to integers outside {0,1} on either side, and random expression programs, every node judged) is executed on the real code; TLC evaluates the reference value with PyRef and compares, and checks that calls inside the formalised documented domain do not raise.",
   note="Integer shadow values compared exactly; calls whose reference value does not fit TLC's 32-bit integers are skipped (counted). Known findings characterised in KnownDeviations.tla.",
   design="5/C05"),
  "C06": dict(
@@ -103,8 +103,8 @@ CHECKS = {
   note="Reference parameters are the repository's tables as data; no published vector exists for the curve25519 set; known finding: parameters follow the generic name when a specific zkinterface module is pre-imported (C19).",
   design="5/C20"),
  "C12": dict(
-  technique="TLC model checking of QapCtx.tla (call-context mechanism: unique call ids and block names, glue shape, split sees every equation) with replay of its histories (QapConf.tla) + TLC evaluation of Qap.tla (EqSat, PubLinked, OneContext, SplitComplete, SameFn, Glue) on the qaptools text files parsed by an independent reader, one interpreter per call history, small-prime instantiation",
-  text="Model checking with conformance: QapCtx.tla transcribes per-context counters, call naming, argument/result copies, glue blocks and flush points; its closed histories are replayed and ids, blocks, glue records and equation counts found in the files compared with the prediction. Trace validation of artefacts: call histories (main only; nested calls with identical outer and different inner bodies; duplicate assertions; a sub-circuit called 1-3 times; two different bodies under one name; equal bodies; nested sub-circuits; structured arguments/results; a comparison inside a sub-circuit) x value pairs incl. negatives run on pysnark.qaptools.backend over p=251 with failing stub executables; TLC decides that every equation holds on the wire and I/O values, every public value is listed and linked, every equation stays in one context, the per-function files written by the backend's own splitting step contain exactly the normalised equations and blocks of a call, calls of one name have equal circuits and digests or the inconsistency is reported, and every call is glued by paired blocks of equal length with pairwise equal values and a shared rnd1 listing all arguments and results.",
+  technique="TLC model checking of QapCtx.tla (call-context mechanism: unique call ids and block names, glue shape, split sees every equation) with replay of its histories (QapConf.tla) + TLC evaluation of Qap.tla (EqSat, PubLinked, OneContext, FnFilesLocal, SplitComplete, SameFn, Glue) on the qaptools text files parsed by an independent reader, one interpreter per call history, small-prime instantiation",
+  text="Model checking with conformance: QapCtx.tla transcribes per-context counters, call naming, argument/result copies, glue blocks and flush points; its closed histories are replayed and ids, blocks, glue records and equation counts found in the files compared with the prediction. Trace validation of artefacts: call histories (main only; nested calls with identical outer and different inner bodies; duplicate assertions; a sub-circuit called 1-3 times; two different bodies under one name; equal bodies; nested sub-circuits; structured arguments/results; a comparison inside a sub-circuit; closures over a secret/public caller wire, also from a nested call) x value pairs incl. negatives run on pysnark.qaptools.backend over p=251 with failing stub executables; TLC decides that every equation holds on the wire and I/O values, every public value is listed and linked, every equation stays in one context or the mix is reported and the split not completed, no per-function file names a wire of another context, the per-function files written by the backend's own splitting step contain exactly the normalised equations and blocks of a call, calls of one name have equal circuits and digests or the inconsistency is reported, and every call is glued by paired blocks of equal length with pairwise equal values and a shared rnd1 listing all arguments and results.",
   note="External qaptools binaries are stubs that fail: key generation / proving itself is not exercised. Known finding: the global constant one inside a sub-circuit mixes contexts.",
   design="5/C12"),
 }
